@@ -20,6 +20,8 @@ func init() {
 }
 
 func runC03(c *Ctx) {
+	c.Rule("R10", "memory of an object recycled through a sync.Pool never leaves its Get/Put window (returned, stored outside the function, sent)", 1)
+	poolEscapes(c, "R10", []string{"balloon", "balloon/history", "balloon/hyper", "api/apihttp", "protocol", "client"})
 	c.Rule("R1", "IncrementalProof.Verify: accepting ⇒ Equal(startRecomputed,startDigest) ∧ Equal(endRecomputed,endDigest), with the right traversals over the proof's audit path", 1)
 	c.Rule("R2", "balloon.IncrementalProof.Verify passes versions and history digests in order, verdict unmodified", 1)
 	c.Rule("R3", "QueryConsistency: range guard dominates ProveConsistency; proof labelled with the parameters", 2)
